@@ -50,10 +50,13 @@ FAMILIES = {
         "vars": [("x", "x", [], False, False),
                  ("n:y", "y", [("string.split", ",")], False, False),
                  ("n:u", "y", [("string.to_upper", None)], False, True),
-                 ("n:w", "x", [("string.split", None)], False, False)],      # "" -> [] (falsy, unhashable)
+                 ("n:w", "x", [("string.split", None)], False, False),       # "" -> [] (falsy, unhashable)
+                 # one variable whose values are of different KINDS from line to line (and from one version of the
+                 # file to the next): None (hashable, used) where the group is absent, a list where it is present
+                 ("n:l", "y", [("string.split", ",")], False, True)],
         "lines": ["a;0", "b;", "a;1", "b;1", "a;2", "b;2;p,q", "c;1;p,q", "c;;p", "a;1;p,q", "b;;q,p", "#x", "", " ", "\t", "bad line",
                   "a;1\x0c", "#\x85x", "c;2;p", "b;9", "b;9;p,q", "a;2;p,q"],
-        "finds": [("n:w", []), ("n:w", ["1"]), ("n:w", ["0"]), ("x", "0"), ("x", "1"), ("x", "2"), ("x", ""), ("n:y", ["p", "q"]), ("n:y", ["p"]), ("n:u", None),
+        "finds": [("n:l", None), ("n:l", ["p", "q"]), ("n:l", ["p"]), ("n:l", "p"), ("n:w", []), ("n:w", ["1"]), ("n:w", ["0"]), ("x", "0"), ("x", "1"), ("x", "2"), ("x", ""), ("n:y", ["p", "q"]), ("n:y", ["p"]), ("n:u", None),
                   ("n:u", "P,Q"), ("x", None), ("zz", "1"), ("n:y", "p,q"), ("n:y", None), ("n", "1"), ("x", 1),
                   ("n:y", ["q", "p"])],
         "gets": ["a", "b", "c", "d", ["a"]],
@@ -725,6 +728,18 @@ class C14(Check):
                 if cst[0] != "missing":
                     h += [("edit", b, "relink_back"), rng.choice(bat), rng.choice(bat)]
                 yield dict(fl, fam=fam, init=a, hist=h, omit=rng.random() < 0.5, link=True)
+        # 2h. a variable whose value kind (None / list) differs between lines and between versions of the file, in both
+        #     orders, looked up with both kinds after every step
+        f = FAMILIES["named"]
+        kinds = [("a;1", "b;2;p,q"), ("b;2;p,q", "a;1"), ("a;1;p", "b;1"), ("c;;p", "a;0")]
+        for (l1, l2) in kinds:
+            for cache in (True, False):
+                for ffm in (False, True):
+                    look = [("find", "n:l", None), ("find", "n:l", l1.split(";")[2].split(",") if l1.count(";") == 2 else ["p", "q"]),
+                            ("get", l1[0]), ("get", l2[0])]
+                    yield {"fam": "named", "cache": cache, "ffm": ffm, "mis": "error", "dup": "error", "omit": ffm,
+                           "init": ("text", l1 + "\n" + l2 + "\n"),
+                           "hist": look + [("edit", ("text", l2 + "\n"))] + look + [("edit", ("text", l1 + "\n"))] + look}
         # 2f. legal inputs at and beyond natural limits: long fields, long lines, many lines, many systems
         for n in ((255, 256, 4096) if quick else (254, 255, 256, 257, 1023, 1024, 4095, 4096, 4097, 8191, 8192, 20000)):
             long_line = "a;" + "x" * n + ";" + "|" * (n // 2)
